@@ -103,7 +103,7 @@ def task(spec):
                 continue
             summ["evals"] += 1
             summ["sim_s"] += b["sim_s"]
-            nontrivial = any("/jsons/" in k for k in a["art"])
+            nontrivial = any("/jsons/" in k for k in a["art"]) and a.get("improved")
             if nontrivial:
                 summ["keys"].append(digest([op["files"], op["argv"], schedules[si][0]]))
             if a["art"] != b["art"]:
